@@ -1788,11 +1788,12 @@ class AstEval:
         """Evaluate dict."""
         val = {}
         for key_ast, val_ast in zip(arg.keys, arg.values):
-            this_val = await self.aeval(val_ast)
             if key_ast is None:
-                val.update(this_val)
+                val.update(await self.aeval(val_ast))
             else:
-                val[await self.aeval(key_ast)] = this_val
+                # the key is evaluated before the value
+                key = await self.aeval(key_ast)
+                val[key] = await self.aeval(val_ast)
         return val
 
     async def dictcomp_loop(self, generators, key, value):
